@@ -29,20 +29,28 @@ int g_sel;                    /* its position in g_t, or g_n if it is not in the
 int w_n, w_m, w_sel, w_virtual, w_virtual2;
 int w_st0, w_st1, w_st2, w_st3;
 
+/* harness allocation: input objects exist (CBMC 6 lets malloc return NULL) */
+static void *xalloc(size_t size)
+{
+	void *p = malloc(size);
+	__CPROVER_assume(p != NULL);
+	return p;
+}
+
 static struct thread *mk_thread(struct thread *share)
 {
-	struct thread *t = malloc(sizeof(struct thread));   /* arbitrary contents */
+	struct thread *t = xalloc(sizeof(struct thread));   /* arbitrary contents */
 	if (share != NULL && nondet_bool())
 		t->proc = share->proc;                       /* threads of one process */
 	else
-		t->proc = malloc(sizeof(struct proc));
+		t->proc = xalloc(sizeof(struct proc));
 	return t;
 }
 
 /* a CPU with arbitrary fields whose list holds n <= C05_MAXN threads */
 static struct cpu *mk_cpu(struct thread **t, int *pn)
 {
-	struct cpu *cpu = malloc(sizeof(struct cpu));
+	struct cpu *cpu = xalloc(sizeof(struct cpu));
 	int n = nondet_int();
 	__CPROVER_assume(0 <= n && n <= C05_MAXN);
 	cpu->threads = NULL;
@@ -65,24 +73,31 @@ static struct cpu *mk_cpu(struct thread **t, int *pn)
 #define NACT(t, n) (T_ACT(t, n, 0) + T_ACT(t, n, 1) + T_ACT(t, n, 2) + T_ACT(t, n, 3))
 #define URUN(t, n) (T_RUN(t, n, 0) ? (t)[0] : T_RUN(t, n, 1) ? (t)[1] : T_RUN(t, n, 2) ? (t)[2] : T_RUN(t, n, 3) ? (t)[3] : (struct thread *) NULL)
 #define UACT(t, n) (T_ACT(t, n, 0) ? (t)[0] : T_ACT(t, n, 1) ? (t)[1] : T_ACT(t, n, 2) ? (t)[2] : T_ACT(t, n, 3) ? (t)[3] : (struct thread *) NULL)
-#define OVERSUB(cpu, t, n) (NRUN(t, n) > 1 && !(cpu)->is_virtual)
 
-/* what the CPU rows must show */
-#define X_TYPE1(t, n) (NRUN(t, n) == 1 ? VALUE_INT64 : VALUE_NULL)
-#define X_TID(t, n)   (NRUN(t, n) == 1 ? (long) URUN(t, n)->tid : 0L)
-#define X_PID(t, n)   (NRUN(t, n) == 1 ? (long) URUN(t, n)->proc->pid : 0L)
-#define X_GID(t, n)   (NRUN(t, n) == 1 ? (long) URUN(t, n)->gindex : 0L)
-#define X_ATYPE(t, n) (NACT(t, n) == 1 ? VALUE_INT64 : VALUE_NULL)
-#define X_AGID(t, n)  (NACT(t, n) == 1 ? (long) UACT(t, n)->gindex : 0L)
+/* pre-state facts of the list, bound in ghosts by the enforce-only contracts
+ * (keeps the clauses small: the counting terms are evaluated once) */
+int g_nrun, g_nact, g_oversub;
+struct thread *g_urun, *g_uact;
+long g_x1type, g_xtid, g_xpid, g_xgid, g_xatype, g_xagid;
+#define BIND_COUNTS(cpu, t, n) ( \
+	g_nrun == NRUN(t, n) && g_nact == NACT(t, n) && g_oversub == (g_nrun > 1 && !(cpu)->is_virtual) && \
+	g_urun == (g_nrun == 1 ? URUN(t, n) : (struct thread *) NULL) && \
+	g_uact == (g_nact == 1 ? UACT(t, n) : (struct thread *) NULL) && \
+	g_x1type == (g_nrun == 1 ? VALUE_INT64 : VALUE_NULL) && \
+	g_xtid == (g_nrun == 1 ? (long) URUN(t, n)->tid : 0L) && \
+	g_xpid == (g_nrun == 1 ? (long) URUN(t, n)->proc->pid : 0L) && \
+	g_xgid == (g_nrun == 1 ? (long) URUN(t, n)->gindex : 0L) && \
+	g_xatype == (g_nact == 1 ? VALUE_INT64 : VALUE_NULL) && \
+	g_xagid == (g_nact == 1 ? (long) UACT(t, n)->gindex : 0L))
 
 /* log entry k (if any) is a write of the value the spec demands to one of the
  * five channels of this CPU */
-#define LOG_OK(cpu, t, n, b, k) ((b) + (k) >= g_cs_n || \
-	CS_ENTRY_IS((b) + (k), &(cpu)->chan[CPU_CHAN_TID],   X_TYPE1(t, n), X_TID(t, n)) || \
-	CS_ENTRY_IS((b) + (k), &(cpu)->chan[CPU_CHAN_PID],   X_TYPE1(t, n), X_PID(t, n)) || \
-	CS_ENTRY_IS((b) + (k), &(cpu)->chan[CPU_CHAN_THRUN], X_TYPE1(t, n), X_GID(t, n)) || \
-	CS_ENTRY_IS((b) + (k), &(cpu)->chan[CPU_CHAN_NRUN],  VALUE_INT64, (long) NRUN(t, n)) || \
-	CS_ENTRY_IS((b) + (k), &(cpu)->chan[CPU_CHAN_THACT], X_ATYPE(t, n), X_AGID(t, n)))
+#define LOG_OK(cpu, b, k) ((b) + (k) >= g_cs_n || \
+	CS_ENTRY_IS((b) + (k), &(cpu)->chan[CPU_CHAN_TID],   g_x1type, g_xtid) || \
+	CS_ENTRY_IS((b) + (k), &(cpu)->chan[CPU_CHAN_PID],   g_x1type, g_xpid) || \
+	CS_ENTRY_IS((b) + (k), &(cpu)->chan[CPU_CHAN_THRUN], g_x1type, g_xgid) || \
+	CS_ENTRY_IS((b) + (k), &(cpu)->chan[CPU_CHAN_NRUN],  VALUE_INT64, (long) g_nrun) || \
+	CS_ENTRY_IS((b) + (k), &(cpu)->chan[CPU_CHAN_THACT], g_xatype, g_xagid))
 /* no channel is written twice */
 #define LOG_DISTINCT(b, j, k) ((b) + (k) >= g_cs_n || g_cs_chan[(b) + (j)] != g_cs_chan[(b) + (k)])
 /* only the last write may have failed */
@@ -99,35 +114,32 @@ static struct cpu *mk_cpu(struct thread **t, int *pn)
 /* ================= cpu_update: the strong, enforce-only contract ============ */
 int c_cpu_update(struct cpu *cpu)
 __CPROVER_requires(cpu == g_cpu && CPU_CHANS_CB_OK(cpu) && g_cs_n == 0 && g_cb_calls < 1000u && DIAG_PRE)
+__CPROVER_requires(BIND_COUNTS(cpu, g_t, g_n))
 __CPROVER_requires(w_n == g_n && w_virtual == cpu->is_virtual &&
 	w_st0 == (g_n > 0 ? (int) g_t[0]->state : -1) && w_st1 == (g_n > 1 ? (int) g_t[1]->state : -1) &&
 	w_st2 == (g_n > 2 ? (int) g_t[2]->state : -1) && w_st3 == (g_n > 3 ? (int) g_t[3]->state : -1))
 __CPROVER_assigns(UPD_FRAME(cpu), UPD_LOG_FRAME, CS_FRAME)
 __CPROVER_ensures(__CPROVER_return_value == 0 || __CPROVER_return_value == -1)
 /* the counters are the number of running / active threads bound to the CPU */
-__CPROVER_ensures(cpu->nth_running == (size_t) NRUN(g_t, g_n) && cpu->nth_active == (size_t) NACT(g_t, g_n))
+__CPROVER_ensures(cpu->nth_running == (size_t) g_nrun && cpu->nth_active == (size_t) g_nact)
 /* more than one running thread on a physical CPU: rejected, nothing reported */
-__CPROVER_ensures(!OVERSUB(cpu, g_t, g_n) || (__CPROVER_return_value == -1 && g_cs_n == 0 &&
+__CPROVER_ensures(!g_oversub || (__CPROVER_return_value == -1 && g_cs_n == 0 &&
 	g_err > __CPROVER_old(g_err) && cpu->th_running == __CPROVER_old(cpu->th_running)))
 /* otherwise th_running is the unique running thread, or nothing */
-__CPROVER_ensures(OVERSUB(cpu, g_t, g_n) ||
-	cpu->th_running == (NRUN(g_t, g_n) == 1 ? URUN(g_t, g_n) : (struct thread *) NULL))
-__CPROVER_ensures(__CPROVER_return_value != 0 ||
-	cpu->th_active == (NACT(g_t, g_n) == 1 ? UACT(g_t, g_n) : (struct thread *) NULL))
+__CPROVER_ensures(g_oversub || cpu->th_running == g_urun)
+__CPROVER_ensures(__CPROVER_return_value != 0 || cpu->th_active == g_uact)
 /* channel writes: at most one per channel, each carrying the demanded value
  * (NRUN = count, TID/PID/THRUN = the unique running thread or null) */
-__CPROVER_ensures(g_cs_n <= 5 &&
-	LOG_OK(cpu, g_t, g_n, 0, 0) && LOG_OK(cpu, g_t, g_n, 0, 1) && LOG_OK(cpu, g_t, g_n, 0, 2) &&
-	LOG_OK(cpu, g_t, g_n, 0, 3) && LOG_OK(cpu, g_t, g_n, 0, 4))
+__CPROVER_ensures(g_cs_n <= 5 && LOG_OK(cpu, 0, 0) && LOG_OK(cpu, 0, 1) && LOG_OK(cpu, 0, 2) &&
+	LOG_OK(cpu, 0, 3) && LOG_OK(cpu, 0, 4))
 __CPROVER_ensures(LOG_DISTINCT(0, 0, 1) && LOG_DISTINCT(0, 0, 2) && LOG_DISTINCT(0, 0, 3) && LOG_DISTINCT(0, 0, 4) &&
 	LOG_DISTINCT(0, 1, 2) && LOG_DISTINCT(0, 1, 3) && LOG_DISTINCT(0, 1, 4) &&
 	LOG_DISTINCT(0, 2, 3) && LOG_DISTINCT(0, 2, 4) && LOG_DISTINCT(0, 3, 4))
 __CPROVER_ensures(LOG_PREFIX_OK(0, 0) && LOG_PREFIX_OK(0, 1) && LOG_PREFIX_OK(0, 2) && LOG_PREFIX_OK(0, 3))
 /* accepted exactly when not oversubscribed and all five channels were written */
-__CPROVER_ensures((__CPROVER_return_value == 0) ==
-	(!OVERSUB(cpu, g_t, g_n) && g_cs_n == 5 && g_cs_ret[4] == 0))
+__CPROVER_ensures((__CPROVER_return_value == 0) == (!g_oversub && g_cs_n == 5 && g_cs_ret[4] == 0))
 /* a refusal without oversubscription is a failed channel write */
-__CPROVER_ensures(__CPROVER_return_value == 0 || OVERSUB(cpu, g_t, g_n) ||
+__CPROVER_ensures(__CPROVER_return_value == 0 || g_oversub ||
 	(g_cs_n >= 1 && g_cs_ret[g_cs_n - 1] != 0 && g_err > __CPROVER_old(g_err)))
 ;
 
